@@ -150,6 +150,26 @@ def run(ctx, chk):
             else:
                 chk.fail('C12.5', 'bank0', '0x%04x-0x%04x reads %s[%s]: not the fixed bank 0'
                          % (p['lo'], p['hi'], p['buffer'], fmt(p['index'])), 'src/mem.rs', None)
+    # ---- rule 8: every write into the ROM area reaches the controller
+    chk.rule('C12.8', 'D', 'register writes are delivered: every path of memory_write_byte for an address in 0x0000-0x7fff '
+             'calls the controller\'s write_rom with that address and the byte written - no size- or state-dependent shortcut '
+             'drops them', floor=1)
+    bad8 = None
+    n8 = 0
+    for p in model.write_paths():
+        if p.get('status') != 'ok' or p['lo'] is None or p['lo'] > 0x7fff:
+            continue
+        n8 += 1
+        r8 = p['result']
+        dyn = [e for e in r8.state.events if e[0] == 'dyn']
+        if p['hi'] > 0x7fff:
+            bad8 = bad8 or 'a write path serves 0x%04x-0x%04x: ROM-area writes are not separated from the rest' % (p['lo'], p['hi'])
+        elif not any('write_rom' in str(e[1:3]) for e in dyn):
+            bad8 = bad8 or ('a write to 0x%04x-0x%04x can return without calling the controller\'s write_rom' % (p['lo'], p['hi']))
+    if bad8 or not n8:
+        chk.fail('C12.8', 'delivered', 'memory_write_byte: %s' % (bad8 or 'no write path for the ROM area found'), 'src/mem.rs', None)
+    else:
+        chk.ok('C12.8', 'delivered', sample={'ROM-area write paths': n8, 'each calls': 'cart_state.write_rom(addr, value)'})
     # ---- rule 6
     cs = headercfg.configuration_space(facts)
     fam_of_type = {}
